@@ -326,7 +326,16 @@ func finish(r *rand.Rand, o *DocOpts, m *V) *V {
 		}
 		if len(names) > 0 {
 			k := names[r.Intn(len(names))]
-			m.Mem = append([]refjson.KV{kv(k, junk(r))}, m.Mem...)
+			jv := junk(r)
+			if k == "type" && r.Intn(2) == 0 {
+				// an earlier "type" that would also fit the other members (the last one counts)
+				if tv := m.Get("type"); tv != nil && tv.Kind == 's' {
+					if alt := map[string]string{"LineString": "MultiPoint", "MultiPoint": "LineString", "Polygon": "MultiLineString", "MultiLineString": "Polygon", "GeometryCollection": "FeatureCollection"}[tv.Str]; alt != "" {
+						jv = str(alt)
+					}
+				}
+			}
+			m.Mem = append([]refjson.KV{kv(k, jv)}, m.Mem...)
 			// shuffle everything except keep the junk before the last real one:
 			// simply shuffle the members other than the real one, then append the real one last
 			var real refjson.KV
